@@ -191,7 +191,7 @@ pub fn def() -> PropertyDef {
         families: vec![
             Family { name: "tree-compound", max_len: 160, quick: 120_000, thorough: 3_000_000, run: run_family },
             Family { name: "relations", max_len: 200, quick: 80_000, thorough: 2_000_000, run: run_relations },
-            Family { name: "scale", max_len: 64, quick: 6_000, thorough: 100_000, run: run_scale },
+            Family { name: "scale", max_len: 64, quick: 6_000, thorough: 60_000, run: run_scale },
         ],
         fixed: vec![
             Fixed { name: "constraint-on-variable-nested-in-compound", run: fixed_nested },
